@@ -487,30 +487,124 @@ def _completion(rep, model):
         except PyRaise as e:
             rep.violation('R2', tag, 'raises %s' % e.name, PART, fn.lineno)
     rep.floor('R2', 'fromgrid limit forms', n2, 60)
-    fn = ctx.func(PART, 'nonuniform_partition')
-    for bl, br in itertools.product((True, False), repeat=2):
-        tag = 'nonuniform_partition[bdry=(%s,%s)]' % (bl, br)
+    # uniform_partition_fromintv: the grid is requested for the interval, the
+    # shape and the per-side flags that were given - also on axes with a
+    # single cell, where one-sided requests are satisfiable
+    fnp = ctx.func(PART, 'uniform_partition_fromintv')
+    if fnp is None:
+        raise AnalysisError('anchor vanished: uniform_partition_fromintv')
+
+    class FH(PHooks):
+        def on_call(self, interp, f, args, kwargs, node):
+            if isinstance(f, Func) and f.name == 'uniform_grid_fromintv':
+                self.grid_call = (args[0], args[1], args[2] if len(args) > 2
+                                  else kwargs.get('nodes_on_bdry', False))
+                return Rec('RectGrid', tag='grid')
+            if isinstance(f, ClassV) and f.ci.name == 'RectPartition':
+                self.part_call = tuple(args)
+                return Rec('RectPartition')
+            return PHooks.on_call(self, interp, f, args, kwargs, node)
+
+    def norm_flags(v, nd):
+        v = v.items if isinstance(v, SArr) else v
+        if isinstance(v, bool):
+            return [(v, v)] * nd
+        out = []
+        for e in v:
+            e = e.items if isinstance(e, SArr) else e
+            out.append((e, e) if isinstance(e, bool) else tuple(
+                bool(z) for z in e))
+        return out
+    nfi = 0
+    for shape, flags in (((1,), [(True, False)]), ((1,), [(False, True)]),
+                         ((1,), [(False, False)]), ((1,), True),
+                         ((3, 1), [True, (False, True)]),
+                         ((1, 4), [(True, False), False]),
+                         ((3, 3), [True, (False, True)])):
+        tag = 'uniform_partition_fromintv[shape=%r,nodes_on_bdry=%r]' % (
+            shape, flags)
+        nfi += 1
         try:
-            leaves, h = _run(model, fn, PART, [SArr(c)],
-                             {'nodes_on_bdry': [(bl, br)]})
-            for a, r in leaves:
-                iv = r.attrs['set']
-                lo, hi = to_rat(iv.attrs['min_pt'][0]), to_rat(
-                    iv.attrs['max_pt'][0])
-                wl = c[0] if bl else c[0] - (c[1] - c[0]) / 2
-                wh = c[3] if br else c[3] + (c[3] - c[2]) / 2
-                if lo == wl and hi == wh:
-                    rep.holds('R2', tag, 'limits at the node / half a '
-                              'stride beyond')
-                else:
-                    rep.violation('R2', 'nonuniform_partition',
-                                  '%s: limits %r, %r, expected %r, %r'
-                                  % (tag, lo, hi, wl, wh), PART, fn.lineno)
+            nd = len(shape)
+            iv = Rec('IntervalProd', min_pt=[Rat.var('a%d' % i)
+                                             for i in range(nd)],
+                     max_pt=[Rat.var('b%d' % i) for i in range(nd)], ndim=nd)
+            h = FH()
+            leaves, h = _run(model, fnp, PART, [iv, tuple(shape)],
+                             {'nodes_on_bdry': flags}, hooks=h)
+            probs = []
+            if getattr(h, 'grid_call', None) is None:
+                raise Undecided('no call of uniform_grid_fromintv')
+            giv, gshape, gflags = h.grid_call
+            if giv is not iv:
+                probs.append('the grid is requested for another interval')
+            gs = gshape.items if isinstance(gshape, SArr) else gshape
+            if [int(to_rat(z).constant()) for z in gs] != list(shape):
+                probs.append('the grid is requested with shape %r' % (gs,))
+            if norm_flags(gflags, nd) != norm_flags(flags, nd):
+                probs.append('the grid is requested with nodes_on_bdry=%r'
+                             % (norm_flags(gflags, nd),))
+            pc = getattr(h, 'part_call', None)
+            if pc is None or pc[0] is not iv or not (
+                    isinstance(pc[1], Rec) and pc[1].attrs.get('tag')
+                    == 'grid'):
+                probs.append('the partition is not RectPartition(intv_prod, '
+                             'grid)')
+            if probs:
+                rep.violation('R2', 'uniform_partition_fromintv', '%s: %s'
+                              % (tag, '; '.join(probs)), PART, fnp.lineno)
+            else:
+                rep.holds('R2', tag, 'grid for the given interval, shape '
+                          'and per-side flags')
         except Undecided as e:
-            rep.undecided('R2', tag, str(e), PART, fn.lineno)
+            rep.undecided('R2', tag, str(e), PART, fnp.lineno)
         except PyRaise as e:
-            rep.violation('R2', 'nonuniform_partition', '%s: raises %s'
-                          % (tag, e.name), PART, fn.lineno)
+            rep.violation('R2', 'uniform_partition_fromintv', '%s: raises %s'
+                          % (tag, e.name), PART, fnp.lineno)
+    rep.floor('R2', 'uniform_partition_fromintv configurations', nfi, 7)
+    fn = ctx.func(PART, 'nonuniform_partition')
+    # one axis, and products of axes of different lengths - a single node
+    # gets the degenerate cell [x, x] wherever it stands among the axes
+    nnu = 0
+    for lens in ((4,), (4, 1), (1, 4), (2, 1, 3)):
+        vecs = [[Rat.var('%s%d' % ('cde'[ax], i)) for i in range(n_)]
+                for ax, n_ in enumerate(lens)]
+        for bl, br in itertools.product((True, False), repeat=2):
+            tag = 'nonuniform_partition[%s nodes,bdry=(%s,%s)]' % (
+                'x'.join(map(str, lens)), bl, br)
+            nnu += 1
+            try:
+                leaves, h = _run(model, fn, PART, [SArr(v) for v in vecs],
+                                 {'nodes_on_bdry': [(bl, br)] * len(lens)
+                                  if len(lens) > 1 else [(bl, br)]})
+                for a, r in leaves:
+                    iv = r.attrs['set']
+                    bad = None
+                    for ax, v in enumerate(vecs):
+                        lo = to_rat(_item(iv.attrs['min_pt'], ax))
+                        hi = to_rat(_item(iv.attrs['max_pt'], ax))
+                        if len(v) == 1:
+                            wl = wh = v[0]
+                        else:
+                            wl = v[0] if bl else v[0] - (v[1] - v[0]) / 2
+                            wh = v[-1] if br else v[-1] + (
+                                v[-1] - v[-2]) / 2
+                        if not (lo == wl and hi == wh) and bad is None:
+                            bad = 'axis %d: limits %r, %r, expected %r, %r' \
+                                % (ax, lo, hi, wl, wh)
+                    if bad is None:
+                        rep.holds('R2', tag, 'limits at the node / half a '
+                                  'stride beyond, [x, x] for a single node')
+                    else:
+                        rep.violation('R2', 'nonuniform_partition',
+                                      '%s: %s' % (tag, bad), PART,
+                                      fn.lineno)
+            except Undecided as e:
+                rep.undecided('R2', tag, str(e), PART, fn.lineno)
+            except PyRaise as e:
+                rep.violation('R2', 'nonuniform_partition', '%s: raises %s'
+                              % (tag, e.name), PART, fn.lineno)
+    rep.floor('R2', 'nonuniform_partition configurations', nnu, 16)
 
 
 # --------------------------------------------------------------------------
